@@ -52,8 +52,8 @@ func GenTargeted(seed int64, idx int, profile string) (GCase, bool) {
 	t := &tgen{r: rand.New(rand.NewSource(seed*104729 + int64(idx)*31 + int64(len(profile)))), name: fmt.Sprintf("t%05d", idx),
 		files: map[string]string{}, feats: map[string]bool{}}
 	fams := map[string][]func(*tgen){
-		"nesting":    {famNested, famNested, famNestedConvRoot, famCandidates},
-		"notations":  {famNested, famNestedConvRoot, famCaseFlip, famRefs, famPerMethodLists, famGetterShapes, famConvShapes},
+		"nesting":    {famNested, famNested, famNestedConvRoot, famCandidates, famWholeCopy},
+		"notations":  {famNested, famNestedConvRoot, famCaseFlip, famRefs, famPerMethodLists, famGetterShapes, famConvShapes, famWholeCopy},
 		"scoping":    {famPerMethodLists, famPerMethodLists, famIntfLevel},
 		"hooks":      {famSharedHooks, famSharedHooks, famHookShapes},
 		"errors":     {famErrors, famSharedHooks, famErrors},
@@ -224,6 +224,35 @@ func upper(s string) string { return s }
 	sb.WriteString("\tConv(*Order) *DOrder\n}\n")
 	t.files[t.name+"/setup.go"] = sb.String()
 	t.files[t.name+"/types.go"] = types
+}
+
+// ---- struct members that could be copied as a whole, with notations naming something beneath them ----------------
+
+func famWholeCopy(t *tgen) {
+	t.feat("family:whole-copy-members")
+	ty := fmt.Sprintf("package %s\n\ntype In struct{ X, Y, Z int }\ntype Deep struct {\n\tIn In\n\tK  int\n}\ntype S struct {\n\tIn    In\n\tOther In\n\tD     Deep\n\tAlt   int\n}\ntype D struct {\n\tIn    In\n\tOther In\n\tD     Deep\n}\n", t.name)
+	pool := []string{":skip In.X", ":map Alt In.Y", ":literal D.In.Z 7", ":skip D.In.Y", ":map Alt D.K", ":skip Other.Z", ":literal Other.X 1",
+		// patterns without a dot that match nested paths all the same
+		":skip /X$/", ":skip /Z$/", ":skip /^D\\./", ":skip /Y/", ":skip /^Other/", ":skip /K$/"}
+	var sb strings.Builder
+	sb.WriteString(header(t))
+	sb.WriteString("type Convergen interface {\n")
+	for j := 0; j < 1+t.r.Intn(3); j++ {
+		for k := 0; k < t.r.Intn(3); k++ {
+			l := pool[t.r.Intn(len(pool))]
+			if strings.HasPrefix(l, ":skip /") {
+				t.feat("dotless-regexp-skip")
+			}
+			sb.WriteString("\t// " + l + "\n")
+		}
+		if t.ch(0.3) {
+			sb.WriteString("\t// :style arg\n")
+		}
+		fmt.Fprintf(&sb, "\tM%d(%sS) %sD\n", j, t.pick("*", "*", ""), t.pick("*", "*", ""))
+	}
+	sb.WriteString("}\n")
+	t.files[t.name+"/setup.go"] = sb.String()
+	t.files[t.name+"/types.go"] = ty
 }
 
 // ---- case-rule flips around :skip ---------------------------------------------------------------
@@ -538,6 +567,11 @@ func famHookShapes(t *tgen) {
 						ht = pool[t.r.Intn(len(pool))]
 					}
 					extraM += fmt.Sprintf(", v%d %s", i, mt)
+					if i == n-1 && t.ch(0.15) {
+						// the hook takes fewer additional parameters than the method has arguments
+						t.feat("hook-with-fewer-parameters")
+						continue
+					}
 					extraH += fmt.Sprintf(", v%d %s", i, ht)
 				}
 				if t.ch(0.15) {
@@ -660,8 +694,8 @@ func famSignatures(t *tgen) {
 	types := fmt.Sprintf("package %s\n\ntype S struct{ A int }\ntype D struct{ A int }\n", t.name)
 	ext := "package ext\n\ntype Pub struct{ A int }\ntype Out struct{ A int }\n"
 	var sb strings.Builder
-	sb.WriteString(header(t, fmt.Sprintf("\"exp/%s/ext\"", t.name)))
-	sb.WriteString("var _ ext.Pub\n\ntype Convergen interface {\n")
+	sb.WriteString(header(t, "\"context\"", "\"time\"", fmt.Sprintf("\"exp/%s/ext\"", t.name)))
+	sb.WriteString("var _ ext.Pub\nvar _ context.Context\nvar _ time.Duration\n\ntype Convergen interface {\n")
 	for j := 0; j < 3+t.r.Intn(4); j++ {
 		style := t.pick("", "", ":style arg", ":style return")
 		recv := t.ch(0.3)
@@ -696,7 +730,7 @@ func famSignatures(t *tgen) {
 		}
 		params = append(params, p0)
 		for i := 0; i < nargs; i++ {
-			at := t.pick("int", "string", "*S", "ext.Pub", "[]int", "map[string]*D", "[]S", "func(int) error", "interface{}")
+			at := t.pick("int", "string", "*S", "ext.Pub", "[]int", "map[string]*D", "[]S", "func(int) error", "interface{}", "context.Context", "context.Context", "time.Duration", "error")
 			if named {
 				an := fmt.Sprintf("a%d", i)
 				if t.ch(0.12) {
@@ -1087,14 +1121,19 @@ func famImportNames(t *tgen) {
 	dir, pname := sh[0], sh[1]
 	ext := fmt.Sprintf("package %s\n\ntype Status int\ntype Code string\ntype M struct {\n\tID int\n\tSt Status\n\tCo Code\n\tTags []Status\n}\n\nfunc Fill(d *M, s *M) {}\nfunc ToCode(s string) Code { return Code(s) }\n", pname)
 	local := fmt.Sprintf("package %s\n\ntype L struct {\n\tID int\n\tSt int\n\tCo string\n\tTags []int\n}\n", t.name)
-	shadow := t.ch(0.5)
+	dot := t.ch(0.2)
+	shadow := !dot && t.ch(0.5)
 	if shadow {
 		// local objects named like the imported types: a type, a func, a var
 		local += t.pick("\ntype Status string\n", "\nfunc Status() {}\n", "\nvar Status = 1\n", "\ntype Status = int64\n")
 		t.feat("local-name-shadows-imported-type")
 	}
 	imp := fmt.Sprintf("\"exp/%s/%s\"", t.name, dir)
-	if t.ch(0.25) {
+	if dot {
+		// a dot import: the package's names are used without a qualifier
+		imp = ". " + imp
+		t.feat("dot-import")
+	} else if t.ch(0.25) {
 		imp = t.pick("al", pname) + " " + imp
 	}
 	var sb strings.Builder
@@ -1103,7 +1142,11 @@ func famImportNames(t *tgen) {
 	if strings.Contains(imp, " ") {
 		ref = strings.Split(imp, " ")[0]
 	}
-	fmt.Fprintf(&sb, "var _ %s.M\n\ntype Convergen interface {\n", ref)
+	q := ref + "."
+	if dot {
+		q = ""
+	}
+	fmt.Fprintf(&sb, "var _ %sM\n\ntype Convergen interface {\n", q)
 	for j := 0; j < 1+t.r.Intn(2); j++ {
 		for _, n := range []string{":typecast", ":stringer", ":case:off"} {
 			if t.ch(0.5) {
@@ -1111,20 +1154,20 @@ func famImportNames(t *tgen) {
 			}
 		}
 		if t.ch(0.3) {
-			fmt.Fprintf(&sb, "\t// :conv %s.ToCode Co Co\n", ref)
+			fmt.Fprintf(&sb, "\t// :conv %sToCode Co Co\n", q)
 		}
 		if t.ch(0.3) {
-			fmt.Fprintf(&sb, "\t// :postprocess %s.Fill\n\tBoth%d(*%s.M) *%s.M\n", ref, j, ref, ref)
+			fmt.Fprintf(&sb, "\t// :postprocess %sFill\n\tBoth%d(*%sM) *%sM\n", q, j, q, q)
 			continue
 		}
 		if t.ch(0.5) {
-			fmt.Fprintf(&sb, "\tTo%d(%sL) %s%s.M\n", j, t.pick("*", ""), t.pick("*", ""), ref)
+			fmt.Fprintf(&sb, "\tTo%d(%sL) %s%sM\n", j, t.pick("*", ""), t.pick("*", ""), q)
 		} else {
-			fmt.Fprintf(&sb, "\tFrom%d(%s%s.M) %sL\n", j, t.pick("*", ""), ref, t.pick("*", ""))
+			fmt.Fprintf(&sb, "\tFrom%d(%s%sM) %sL\n", j, t.pick("*", ""), q, t.pick("*", ""))
 		}
 	}
 	if t.ch(0.3) {
-		fmt.Fprintf(&sb, "\tExtra(s *L, more []%s.M, m map[string]*%s.M) *L\n", ref, ref)
+		fmt.Fprintf(&sb, "\tExtra(s *L, more []%sM, m map[string]*%sM) *L\n", q, q)
 	}
 	sb.WriteString("}\n")
 	t.files[t.name+"/setup.go"] = sb.String()
@@ -1215,10 +1258,22 @@ func famConvShapes(t *tgen) {
 	t.feat("family:function-shape-grid")
 	ty := fmt.Sprintf(`package %s
 
-type S struct{ A, B int }
-type D struct{ A, B int }
+type S struct {
+	A, B int
+	L    []int
+	P    *int
+}
+type D struct {
+	A, B int
+	L    int
+	P    int
+}
 
 func ok1(i int) int                  { return i }
+func sum(xs []int) int               { return len(xs) }
+func sumVariadic(xs ...int) int      { return len(xs) }
+func hookMore(d *D, s *S, more []int)            {}
+func hookMoreVariadic(d *D, s *S, more ...int)  {}
 func okErr(i int) (int, error)       { return i, nil }
 func noParam() int                   { return 0 }
 func noResult(i int)                 {}
@@ -1261,6 +1316,19 @@ func hookVariadic(d *D, s ...*S)         {}
 	sb.WriteString(header(t))
 	sb.WriteString("type Convergen interface {\n")
 	for j := 0; j < 1+t.r.Intn(3); j++ {
+		if t.ch(0.2) {
+			// a pointer member handed to a function that takes the value (or the pointer)
+			fmt.Fprintf(&sb, "\t// :conv %s P\n", t.pick("ok1", "ptrParam", "okErr"))
+			t.feat("pointer-source-for-converter")
+		}
+		if t.ch(0.25) {
+			// a slice handed to a function whose parameter is a slice, or variadic
+			fmt.Fprintf(&sb, "\t// :conv %s L\n", t.pick("sum", "sumVariadic"))
+		}
+		if t.ch(0.2) {
+			fmt.Fprintf(&sb, "\t// :%s %s\n\tV%d(s *S, more []int) %s\n", t.pick("preprocess", "postprocess"), t.pick("hookMore", "hookMoreVariadic"), j, t.pick("*D", "(*D, error)"))
+			continue
+		}
 		if t.ch(0.8) {
 			fmt.Fprintf(&sb, "\t// :conv %s A\n", convs[t.r.Intn(len(convs))])
 		}
@@ -1314,9 +1382,9 @@ func famEmbedded(t *tgen) {
 
 func famSlices(t *tgen) {
 	t.feat("family:slice-element-matrix")
-	elems := []string{"int", "int64", "string", "interface{}", "any", "*int", "Name", "Stringer", "struct{ K, V string }", "[]int", "Item", "*Item", "rune", "MyInt", "byte"}
+	elems := []string{"int", "int64", "string", "interface{}", "any", "*int", "Name", "Stringer", "struct{ K, V string }", "[]int", "Item", "*Item", "rune", "MyInt", "byte", "Item2", "*Item2", "*MyInt", "*Item", "*int"}
 	var ty strings.Builder
-	fmt.Fprintf(&ty, "package %s\n\ntype Name string\n\nfunc (n Name) String() string { return string(n) }\n\ntype Stringer interface{ String() string }\ntype Item struct{ A int }\ntype MyInt int\ntype Names []string\n\n", t.name)
+	fmt.Fprintf(&ty, "package %s\n\ntype Name string\n\nfunc (n Name) String() string { return string(n) }\n\ntype Stringer interface{ String() string }\ntype Item struct{ A int }\ntype Item2 struct{ A int }\ntype MyInt int\ntype Names []string\n\n", t.name)
 	ty.WriteString("type S struct {\n")
 	n := 2 + t.r.Intn(5)
 	var pairs [][2]string
